@@ -25,7 +25,7 @@ RULE = ('a case is (construction, immutability mode, history); histories are '
 ASSUMPTIONS = ['for immutable_warranty="copy" the original container is not '
                'mutated (the statement exempts it)']
 SHARD_TIMEOUT = {'quick': 300, 'thorough': 3000}
-LIMITS = {'quick': dict(L=2, stride2=16, nrand=24, disk_hist=20),
+LIMITS = {'quick': dict(L=2, stride2=30, nrand=18, disk_hist=20),
           'thorough': dict(L=3, stride2=1, stride3=97, nrand=1500, disk_hist=600)}
 
 
@@ -90,7 +90,8 @@ CONSTRUCTIONS = (
 )
 
 ACCESS = ('idx+', 'idx-', 'npidx', 'key', 'iter', 'items', 'slice-iter',
-          'copy-idx', 'copy-iter', 'old-alias', 'iter-live', 'items-live')
+          'copy-idx', 'copy-iter', 'old-alias', 'iter-live', 'items-live',
+          'fn-sort', 'fn-efilter', 'fn-lfilter', 'fn-map', 'fn-groupby', 'fn-sort-slice')
 # 'iter-live' / 'items-live': every example is mutated inside the loop body, as
 # soon as it has been yielded and before the next one is requested (a stage
 # that stores what it computed *after* handing it out would store the mutation)
@@ -173,6 +174,38 @@ class World:
             return list(ds.copy())
         if how == 'old-alias':
             return list(self.aliases[-3:])
+        if how.startswith('fn-'):
+            # the examples a USER FUNCTION is handed (sort key, predicate,
+            # group function, mapped function): they are obtained from the
+            # dataset like any other and are mutated by the caller afterwards
+            seen = []
+
+            def key0(x):
+                seen.append(x)
+                return 0
+
+            def keep(x):
+                seen.append(x)
+                return True
+
+            def same(x):
+                seen.append(x)
+                return x
+            if how == 'fn-sort':
+                list(ds.sort(key0))
+            elif how == 'fn-efilter':
+                list(ds.filter(keep, lazy=False))
+            elif how == 'fn-lfilter':
+                list(ds.filter(keep))
+            elif how == 'fn-map':
+                list(ds.map(same))
+            elif how == 'fn-groupby':
+                ds.groupby(key0)
+            elif how == 'fn-sort-slice':
+                list(ds[:].sort(key0))
+            else:
+                raise ValueError(how)
+            return seen
         raise ValueError(how)
 
     def mutate(self, objs, mut):
@@ -360,8 +393,8 @@ def run_history(ld, cons, n, hist, tmp, res, cold=False):
 
 def all_steps(n):
     return [(how, i, mut) for how in ACCESS for i in range(n) for mut in MUTATORS
-            if not (how in ('iter', 'items', 'copy-iter', 'old-alias', 'iter-live',
-                            'items-live') and i > 0)]
+            if not ((how in ('iter', 'items', 'copy-iter', 'old-alias', 'iter-live',
+                             'items-live') or how.startswith('fn-')) and i > 0)]
 
 
 def shards(tier, seed):
